@@ -169,6 +169,26 @@ impl LookupClass<&StringName, Class> for Context {
     /// Substitutes all generics in the class when found.
     /// Also constructs class complete with all fields and functions from parents.
     fn class(&self, class: &StringName, pos: Position) -> TypeResult<Class> {
+        self.class_below(class, pos, &[])
+    }
+}
+
+impl Context {
+    /// [LookupClass::class], where `below` are the classes whose ancestors are being collected.
+    ///
+    /// A class among its own ancestors is an error, not an endless recursion.
+    fn class_below(
+        &self,
+        class: &StringName,
+        pos: Position,
+        below: &[String],
+    ) -> TypeResult<Class> {
+        if below.contains(&class.name) {
+            let msg = format!("Type '{class}' inherits from itself.");
+            return Err(vec![TypeErr::new(pos, &msg)]);
+        }
+        let below = [below, &[class.name.clone()]].concat();
+
         if let Some(generic_class) = self.classes.iter().find(|c| c.name.name == class.name) {
             let mut generics = HashMap::new();
             if class.name == TUPLE {
@@ -213,7 +233,7 @@ impl LookupClass<&StringName, Class> for Context {
             let clss = clss
                 .parents
                 .iter()
-                .map(|p| self.class(p, pos))
+                .map(|p| self.class_below(&StringName::from(p), pos, &below))
                 .collect::<TypeResult<Vec<Class>>>()?
                 .iter()
                 .fold(clss, |acc, parent| acc.inherit(parent));
